@@ -766,6 +766,10 @@ fn predicate_on(c: &Case, base: &[Out], with: &[u32], out: &[Out], full: bool) -
                 Err(format!("preserve-own-glyph {}!={}", g.gid, own))
             } else if cf && horizontal && own != 0 && !only_the_ignorable && g.pos[0] != adv_of(own) {
                 Err(format!("preserve-own-advance {}!={}", g.pos[0], adv_of(own)))
+            } else if cf && !horizontal && own != 0 && !only_the_ignorable && g.pos != [0, -1000, -(adv_of(own) / 2), -800] {
+                // vertical: like any other glyph of these fonts (no vmtx, no outlines): advance ascender - descender downwards,
+                // origin shifted to (half the horizontal advance, ascender)
+                Err(format!("preserve-own-vertical-position {:?}!={:?}", g.pos, [0, -1000, -(adv_of(own) / 2), -800]))
             } else {
                 Ok(())
             }
